@@ -345,6 +345,11 @@ package database
 
 //@ pure func normFuzzy(raw int) float64 = min(1.0, max(0.0, real(raw + 100) / 100.0))
 
+// candidateLimit: twice the limit, saturating (checked with machine-integer overflow obligations).
+//@ func candidateLimit
+//@   pure
+//@   opt overflow yes
+//@   ensures[C10.candidate-limit] (limit <= 0 ==> result == 0) && (0 < limit && limit <= 4611686018427387903 ==> result == 2 * limit) && (limit > 4611686018427387903 ==> result == 9223372036854775807)
 //@ func (*Database).performFuzzySearch
 //@   modifies nothing
 //@   ensures[C01.fuzzy-ok] fresh(result) && resultsOK(db, result) && sortedDesc(result)
